@@ -117,6 +117,7 @@ class VC:
         self.quant_axioms = []
         self.tid_facts = set()
         self.def_memo = {}
+        self.str_facts = set()
         self.assume_block = {}
         self.cur_block = None
         self.reach_sets = None
